@@ -1,5 +1,5 @@
 From Coq Require Import PrimFloat ZArith List Bool.
-From MV Require Import Ops FloatFun FInst Vec Cplx Mat Hop Hopper Propagate Traj Cumulative Afssh R02.
+From MV Require Import Ops FloatFun FInst Vec Cplx Mat Hop Hopper Propagate Traj Cumulative Afssh SpawnStack R02.
 Import ListNotations.
 Open Scope float_scope.
 (* n, masses, dt, poisson, zeta, e0 (H,tau,force), e1, eigh(W_impl), state before (x, v, rho, active, time),
@@ -124,3 +124,34 @@ Definition chkAr (c : caseA) : bool :=
   && cclose_lll (0x1p-36 * (cmaxabs_l idR + 0x1p-60)) (adelR s') idR
   && cclose_lll (0x1p-36 * (cmaxabs_l idP + 0x1p-60)) (adelP s') idP
   && Bool.eqb coll icoll.
+
+(* ---- the even-sampling pass ---- *)
+(* n, masses, dt, e0, e1, eigh(W), state before, (prob_cum, izeta, stack, base weight) before;
+   implementation after: state, (prob_cum, izeta, weight); children in queue order: (x, v, active, time), base weight, size of own stack *)
+Definition caseS : Type :=
+  (nat * list float * float * elecL * elecL * list float * cmat
+   * (list float * list float * cmat * nat * float)
+   * (float * nat * list (node (T:=float)) * float)
+   * (list float * list float * cmat * nat * float)
+   * (float * nat * float)
+   * list ((list float * list float * nat * float) * float * nat))%type.
+Fixpoint kids_ok (ks : list (estate (T:=float))) (iks : list ((list float * list float * nat * float) * float * nat)) : bool :=
+  match ks, iks with
+  | [], [] => true
+  | k :: ks', ((ix, iv, ia, it), iw, ins) :: iks' =>
+      fclose_l (0x1p-44 * lmaxa ix) 0 (px (eb k)) ix && fclose_l (0x1p-36 * lmaxa iv) 0 (pv (eb k)) iv
+      && Nat.eqb (pact (eb k)) ia && fclose 0 0 (ptime (eb k)) it
+      && fclose 0x1p-60 0x1p-40 (ebase k) iw && Nat.eqb (length (est k)) ins && kids_ok ks' iks'
+  | _, _ => false
+  end.
+Definition chkES (c : caseS) : bool :=
+  let '(n, m, dt, (H0, t0, F0), (H1, t1, F1), lam, Cm, (x, v, rho, a, t), (pc, iz, st, base), (ix, iv, irho, ia, it), (pc1, iz1, w1), iks) := c in
+  let '(s', kids, _) := step_es FOps n m dt (mkElec H0 t0 F0) (mkElec H1 t1 F1) lam Cm (mkES (mkT x v rho a t) pc iz st base) in
+  fclose_l (0x1p-44 * lmaxa ix) 0 (px (eb s')) ix
+  && fclose_l (0x1p-36 * lmaxa iv) 0 (pv (eb s')) iv
+  && cclose_ll 0x1p-38 (prho (eb s')) irho
+  && Nat.eqb (pact (eb s')) ia && fclose 0 0 (ptime (eb s')) it
+  && fclose 0x1p-44 0x1p-44 (eacc s') pc1 && Nat.eqb (eiz s') iz1
+  && fclose 0x1p-60 0x1p-40 (es_weight FOps s') w1
+  && kids_ok kids iks.
+
